@@ -171,20 +171,52 @@ Definition c01_pops (m : bytes) (pos lim : N) : outcome name_ops :=
 
 (* ------------------------------------------------------------------------ *)
 (* Typed record data: ParsedRecord::to_any_record::<AllRecordData>.
-   None: the type has no schema row (NSEC, NSEC3, IPSECKEY, SVCB, HTTPS, OPT).
-   Otherwise whether the data parses, and the error class if not
-   (1 short, 2-4 name errors, 5 any form error incl. trailing data). *)
+   Whether the data parses, and the error class if not (1 short, 2-4 name
+   errors, 5 any form error incl. trailing data).  IPSECKEY goes through C05's
+   rows by gateway type, OPT through the option framing (Opt::check_slice);
+   None only if C05's table should ever lack a row (not the case now). *)
+Definition classify {A} (x : outcome A) : outcome (item unit) :=
+  match x with
+  | Ok _ => Ok (IOk tt)
+  | Err e => Ok (IErr e)
+  | Panic p => Panic p
+  | OutOfFuel => OutOfFuel
+  end.
+
+Definition RT_IPSECKEY : N := 45.
+
 Definition typed_rdata (m : bytes) (r : rr) : outcome (option (item unit)) :=
-  match schema_of (rr_type r) with
-  | None => Ok None
-  | Some s =>
-      if mlen m - rr_data r <? rr_rdlen r then Ok (Some (IErr E_SHORT)) else   (* parse_parser *)
-      match parse_rdata pname_dec s m (rr_data r) (rr_data r + rr_rdlen r) with
-      | Ok _ => Ok (Some (IOk tt))
-      | Err e => Ok (Some (IErr e))
-      | Panic p => Panic p
-      | OutOfFuel => OutOfFuel
+  if mlen m - rr_data r <? rr_rdlen r then Ok (Some (IErr E_SHORT)) else          (* parse_parser *)
+  let lim := rr_data r + rr_rdlen r in
+  if rr_type r =? RT_IPSECKEY then
+    do c <- classify (ipseckey_parse m (rr_data r) lim); Ok (Some c)
+  else if rr_type r =? RT_OPT then
+    do c <- classify (opt_check (S (N.to_nat (rr_rdlen r))) m (rr_data r) lim []); Ok (Some c)
+  else
+    match schema_of (rr_type r) with
+    | None => Ok None
+    | Some s => do c <- classify (parse_rdata pname_dec s m (rr_data r) lim); Ok (Some c)
+    end.
+
+(* Typed EDNS options: Opt::iter::<AllOptData>.  Each option's data is parsed
+   in a sub-parser of exactly its length (C05's option table; unknown codes are
+   opaque); after the first error the iterator is advanced to its end. *)
+Fixpoint options_typed (l : list (N * bytes)) : outcome (list (N * item unit)) :=
+  match l with
+  | [] => Ok []
+  | (code, d) :: t =>
+      do c <- classify (parse_rdata flat_dec (option_schema code) d 0 (len d));
+      match c with
+      | IErr e => Ok [(code, IErr e)]
+      | IOk u => do rest <- options_typed t; Ok ((code, IOk u) :: rest)
       end
+  end.
+
+Definition msg_opt_typed (m : bytes) : outcome (option (list (N * item unit))) :=
+  do o <- msg_opt m;
+  match o with
+  | None => Ok None
+  | Some (_, os) => do l <- options_typed os; Ok (Some l)
   end.
 
 (* all records of the message (MessageIter order) with their typed outcome *)
@@ -237,16 +269,16 @@ Definition xfr_first (m : bytes) : outcome N :=
                   do r <- r_next m ans;
                   match r with
                   | (Some (IOk rec), _) =>
-                      match zone_schema_of (rr_type rec) with
-                      | None => Ok 99
-                      | Some s =>
-                          if mlen m - rr_data rec <? rr_rdlen rec then Ok 12 else
-                          match parse_rdata pname_dec s m (rr_data rec) (rr_data rec + rr_rdlen rec) with
-                          | Ok _ => if rr_type rec =? RT_SOA then Ok (if t =? RT_AXFR then 0 else 1) else Ok 10
-                          | Err _ => Ok 12
-                          | Panic p => Panic p
-                          | OutOfFuel => OutOfFuel
-                          end
+                      if mlen m - rr_data rec <? rr_rdlen rec then Ok 12 else
+                      do c <- (if rr_type rec =? RT_IPSECKEY
+                               then classify (ipseckey_parse m (rr_data rec) (rr_data rec + rr_rdlen rec))
+                               else match zone_schema_of (rr_type rec) with
+                                    | None => Ok (IErr 99)
+                                    | Some s => classify (parse_rdata pname_dec s m (rr_data rec) (rr_data rec + rr_rdlen rec))
+                                    end);
+                      match c with
+                      | IOk _ => if rr_type rec =? RT_SOA then Ok (if t =? RT_AXFR then 0 else 1) else Ok 10
+                      | IErr e => if e =? 99 then Ok 99 else Ok 12
                       end
                   | _ => Ok 12
                   end
@@ -263,7 +295,7 @@ Inductive op :=
 | OQuestion | OAnswer | OAuthority | OAdditional          (* msg.question() ... push an iterator *)
 | OQNext (i : nat) | OQAnswer (i : nat)                   (* on the i-th live iterator *)
 | ORNext (i : nat) | ORNextSection (i : nat)
-| OFirst | OSole | OSelf | OCanonical | OSections | OCounts | OSlice (start : N) | OTyped.
+| OFirst | OSole | OSelf | OCanonical | OSections | OCounts | OSlice (start : N) | OTyped | OOptTyped.
 
 Inductive res :=
 | RNone                                   (* no such iterator / wrong kind *)
@@ -278,7 +310,8 @@ Inductive res :=
 | RSecs (v : N * N * N * N)
 | RCounts (v : N * N * N * N)
 | RLabels (l : list bytes)
-| RTyped (l : list (option (item unit))).
+| RTyped (l : list (option (item unit)))
+| ROptTyped (l : option (list (N * item unit))).
 
 Fixpoint set_nth {A} (i : nat) (x : A) (l : list A) : list A :=
   match l, i with
@@ -379,6 +412,7 @@ Definition run_op (m : bytes) (st : list sect) (o : op) : outcome (res * list se
       Ok (RCounts (qd, an, ns, ar), st)
   | OSlice start => do l <- iter_slice m start; Ok (RLabels l, st)
   | OTyped => do l <- message_typed m; Ok (RTyped l, st)
+  | OOptTyped => do l <- msg_opt_typed m; Ok (ROptTyped l, st)
   end.
 
 Fixpoint run_ops (m : bytes) (st : list sect) (ops : list op) : outcome (list res) :=
